@@ -1,8 +1,9 @@
 import PhononModel.Model.Dataset
 import PhononModel.Model.LoadPriority
 import PhononModel.Model.Precision
+import PhononModel.Model.YamlAst
 import PhononModel.Model.Wire
-open PhononModel PhononModel.Wire PhononModel.DS PhononModel.LP PhononModel.Prec
+open PhononModel PhononModel.Wire PhononModel.DS PhononModel.LP PhononModel.Prec PhononModel.YA
 
 /-!
 Driver for C16.  Requests (numbers exact: integers or `n/d`):
@@ -13,7 +14,10 @@ Driver for C16.  Requests (numbers exact: integers or `n/d`):
 * `fid2 <hasForces 0|1>` ↦ `true|false` ; `fid0` ↦ `false`
 * `t1 <n> <m> <m*n*3 displacements> <hasF 0|1> [<m*n*3 forces>]`
     ↦ `none` | entries in the encoding of `t2`                         (`toType1`)
+* `yaml1 <n> <m> {entry hasE [e]}*m` ↦ yaml items `|` reader(writer(d)) ; `yaml2 …` ; `ypoint …`   (`toYaml…`, `ofYaml…`)
 * `load <20 fields>` ↦ `calculator factor nac nacFactor dataset datasetForces fc docFc`   (`load`, `docFcSource`)
+* `recompute <20 fields> <isCompactFc symmetrizeFc fcCalculator yamlFcCompact argFcCompact fileFcCompact hdf5Compact datasetType2>`
+    ↦ `layout converted produced symmetrized solver raises`                          (`recompute`)
 * `save <5 settings> <5 obj fields>` ↦ `nac nacHasFactor dataset fc calculator`  (`save`)
 * `reload <5 settings> <5 obj fields>` ↦ obj fields                   (`reload`)
 * `print <k> <x>` ↦ the integer `printK k x` ; `len <k> <x>` ↦ `printedLen k x` ; `fits <W> <k> <x>`
@@ -115,6 +119,31 @@ def readPresent (c : Cur) : Option (Present × Cur) := do
           argFactor, isNac, produceFc, yamlNac, yamlNacHasFactor, yamlDataset, yamlFc, yamlCalculator,
           fileForceSets, fileForceConstants, fileHdf5, fileBorn, fileBornHasFactor }, c)
 
+def readSolver (c : Cur) : Option (Option Solver × Cur) := do
+  let (t, c) ← c.str?
+  match t with
+  | "-" => pure (none, c)
+  | "traditional" => pure (some .traditional, c)
+  | "symfc" => pure (some .symfc, c)
+  | "alm" => pure (some .alm, c)
+  | _ => none
+
+def readOpts (c : Cur) : Option (Opts × Cur) := do
+  let (isCompactFc, c) ← readBool c
+  let (symmetrizeFc, c) ← readBool c
+  let (fcCalculator, c) ← readSolver c
+  let (yamlFcCompact, c) ← readBool c
+  let (argFcCompact, c) ← readBool c
+  let (fileFcCompact, c) ← readBool c
+  let (hdf5Compact, c) ← readBool c
+  let (datasetType2, c) ← readBool c
+  pure ({ isCompactFc, symmetrizeFc, fcCalculator, yamlFcCompact, argFcCompact, fileFcCompact, hdf5Compact, datasetType2 }, c)
+
+def showOB : Option Bool → String
+  | none => "-" | some true => "compact" | some false => "full"
+def showSolver : Option Solver → String
+  | none => "-" | some .traditional => "traditional" | some .symfc => "symfc" | some .alm => "alm"
+
 def readSettings (c : Cur) : Option (Settings × Cur) := do
   let (forceSets, c) ← readBool c
   let (displacements, c) ← readBool c
@@ -134,6 +163,35 @@ def readObj (c : Cur) : Option (Obj × Cur) := do
 
 def showObj (o : Obj) : String :=
   showDS o.dataset ++ " " ++ showB o.fc ++ " " ++ showB o.nac ++ " " ++ showB o.nacHasFactor ++ " " ++ showCalc o.calculator
+
+def showL (l : List Rat) : String := "[" ++ ",".intercalate (l.map showRat) ++ "]"
+def showLL (l : List (List Rat)) : String := "[" ++ ",".intercalate (l.map showL) ++ "]"
+def showO {β : Type} (f : β → String) : Option β → String
+  | none => "-" | some v => f v
+
+def readEntry1 (n : Nat) (c : Cur) : Option (Entry1 n Rat × Cur) := do
+  let (e, c) ← readEntry n c
+  let (he, c) ← readBool c
+  if he then
+    let (v, c) ← c.rat?
+    pure (⟨e, some v⟩, c)
+  else pure (⟨e, none⟩, c)
+
+def readEntries1 (n m : Nat) (c : Cur) : Option (List (Entry1 n Rat) × Cur) := do
+  let mut c := c
+  let mut out : Array (Entry1 n Rat) := #[]
+  for _ in [0:m] do
+    let (e, c') ← readEntry1 n c
+    out := out.push e
+    c := c'
+  pure (out.toList, c)
+
+def showYEntry (y : YEntry Rat) : String :=
+  "atom=" ++ toString y.atom ++ " displacement=" ++ showL y.displacement ++ " forces=" ++ showO showLL y.forces ++
+    " supercell_energy=" ++ showO showRat y.supercell_energy
+
+def showEntry1 {n : Nat} (x : Entry1 n Rat) : String :=
+  showEntry x.e ++ (match x.energy with | none => " 0" | some v => " 1 " ++ showRat v)
 
 def handle (line : String) : String :=
   let c : Cur := { toks := (tokens line).toArray }
@@ -169,6 +227,53 @@ def handle (line : String) : String :=
       match toType1 ({ displacements := us, forces := fs } : Type2 n Rat) with
       | none => pure "none"
       | some d => pure (" ; ".intercalate (d.first_atoms.map showEntry))
+    | "yaml1" =>
+      -- n m { number d0 d1 d2 hasF [forces] hasE [energy] }*m  ↦  yaml items | reader(writer(d))
+      let (n, c) ← c.nat?
+      let (m, c) ← c.nat?
+      let (es, c) ← readEntries1 n m c
+      if !c.atEnd then none
+      let y := toYaml1 es
+      pure (" ; ".intercalate (y.map showYEntry) ++ " | " ++
+        (match ofYaml1 n y with | none => "none" | some d => " ; ".intercalate (d.map showEntry1)))
+    | "yaml2" =>
+      -- n m <m*n*3 displacements> hasF [<m*n*3 forces>] hasE [<m energies>]
+      let (n, c) ← c.nat?
+      let (m, c) ← c.nat?
+      let (us, c) ← readFields n m c
+      let (hf, c) ← readBool c
+      let (fs, c) ← (if hf then (readFields n m c).map fun p => (some p.1, p.2) else some (none, c))
+      let (he, c) ← readBool c
+      let (en, c) ← (if he then (c.rats? m).map fun p => (some p.1.toList, p.2) else some (none, c))
+      if !c.atEnd then none
+      let y := toYaml2 (⟨⟨us, fs⟩, en⟩ : Data2 n Rat)
+      pure ("displacements=" ++ "[" ++ ",".intercalate (y.displacements.map showLL) ++ "]" ++ " forces=" ++
+        showO (fun f => "[" ++ ",".intercalate (f.map showLL) ++ "]") y.forces ++ " supercell_energies=" ++ showO showL y.supercell_energies ++
+        " | " ++ (match ofYaml2 n y with
+          | none => "none"
+          | some d => showField d.d.displacements ++ " / " ++ showO showField d.d.forces ++ " / " ++ showO showL d.energies))
+    | "ypoint" =>
+      -- symbol formal c0 c1 c2 hasMass [mass] moment(0 none | 1 m | 3 m0 m1 m2)
+      let (sym, c) ← c.str?
+      let (formal, c) ← c.str?
+      let (co, c) ← c.rats? 3
+      let (hm, c) ← readBool c
+      let (mass, c) ← (if hm then c.rat?.map fun p => (some p.1, p.2) else some (none, c))
+      let (mk, c) ← c.nat?
+      let (mom, c) ← (match mk with
+        | 0 => some ((none : Option (Moment Rat)), c)
+        | 1 => c.rat?.map fun p => (some (Moment.collinear p.1), p.2)
+        | 3 => (c.rats? 3).map fun p => (some (Moment.vector fun k => p.1.getD k.1 0), p.2)
+        | _ => none)
+      if !c.atEnd then none
+      let a : Atom Rat := { symbol := sym, formal := formal, coordinates := fun k => co.getD k.1 0, mass := mass, moment := mom }
+      let y := toYamlPoint a
+      let back := match ofYamlPoint y with
+        | none => "none"
+        | some b => b.symbol ++ " " ++ b.formal
+      pure ("symbol=" ++ y.symbol ++ " extended_symbol=" ++ showO id y.extended_symbol ++ " coordinates=" ++ showL y.coordinates ++
+        " mass=" ++ showO showRat y.mass ++ " magnetic_moment=" ++
+        (match y.magnetic_moment with | none => "-" | some (.scalar m) => showRat m | some (.seq l) => showL l) ++ " | " ++ back)
     | "load" =>
       let (p, c) ← readPresent c
       if !c.atEnd then none
@@ -176,6 +281,13 @@ def handle (line : String) : String :=
       pure (showCalc l.calculator ++ " " ++ (match l.factor with | .arg => "arg" | .calculatorDefault => "default") ++ " " ++
         showNac l.nac ++ " " ++ (match l.nacFactor with | .na => "na" | .inParams => "params" | .calculatorDefault => "default") ++ " " ++
         showDsSrc l.dataset ++ " " ++ showB l.datasetForces ++ " " ++ showFc l.fc ++ " " ++ showFc (docFcSource p))
+    | "recompute" =>
+      let (p, c) ← readPresent c
+      let (o, c) ← readOpts c
+      if !c.atEnd then none
+      let r := recompute p o
+      pure (showOB r.fcCompact ++ " " ++ showB r.converted ++ " " ++ showB r.produced ++ " " ++ showB r.symmetrized ++ " " ++
+        showSolver r.solver ++ " " ++ showB r.raises)
     | "save" =>
       let (st, c) ← readSettings c
       let (o, c) ← readObj c
